@@ -3,11 +3,13 @@
 (* Judges recorded results of UxDataArray.topological_<op>(destination)    *)
 (* against Aggregate.tla.  One ndjson line per (grid, data array):         *)
 (*   id, n_node, mesh (faces as given to the constructor, in that order),  *)
-(*   den (data value = rows[r][n] / den), lead (sizes of leading dims),    *)
-(*   lead_dims (their names), rows (one node row per flattened leading     *)
-(*   index), edges (the grid's own edge_node table),                       *)
-(*   res[dest][op] = [v |-> per row, per element <<p, q, flags>>, dims,    *)
-(*                    shape, cls, same]  or  [err |-> text],               *)
+(*   den (data value = rows[r][n] / den), pos (0-based position of the     *)
+(*   node dimension), lead / lead_dims (sizes / names of the OTHER dims in *)
+(*   order), rows (one node row per C-order index of the other dims),      *)
+(*   edges (the grid's own edge_node table),                               *)
+(*   res[dest][op] = [flat |-> the result in its own C order, entries      *)
+(*                    <<p, q, flags>>, dims, shape, cls, same]             *)
+(*                   or [err |-> text],                                    *)
 (*   unsup = sequence of [src, dst, raised].                               *)
 (* A result value x arrives as the rational p/q nearest to x (for std: to  *)
 (* x squared) with q <= 4096, q = 0 if x is not finite or absurdly large;  *)
@@ -41,48 +43,31 @@ Match(op, got, exp) ==
     /\ (op \in ExactOps => Bit(got[3], 0))
     /\ (op = "std" => Bit(got[3], 2))
 
+Lay(r) == [ pos |-> r.pos, lead |-> r.lead ]
+
+\* e.flat = the result flattened in its own C order.  Every canonical row (flattened index of the other
+\* dimensions) and element is looked up at the offset the layout demands (Aggregate.FlatOffset, proved to be the
+\* C-order offset in AggLayout.tla) and compared with the spec's fold over exactly that element's nodes.
 ValueOK(r, dest, op) ==
     LET e   == r.res[dest][op]
         els == Elements(r, dest)
-    IN Has(e, "v") =>
-         /\ Len(e.v) = Len(r.rows)
-         /\ \A row \in 1..Len(r.rows) :
-              /\ row <= Len(e.v) => Len(e.v[row]) = Len(els)
-              /\ \A k \in 1..Len(els) :
-                   (row <= Len(e.v) /\ k <= Len(e.v[row])) =>
-                      Match(op, e.v[row][k], Reduce(op, Gather(els[k], r.rows[row]), r.den))
+        l   == Lay(r)
+        n   == Len(els)
+    IN Has(e, "flat") =>
+         /\ Len(r.rows) = NRows(l)
+         /\ Len(e.flat) = Len(r.rows) * n
+         /\ \A row \in 1..Len(r.rows) : \A k \in 1..n :
+              LET o == FlatOffset(l, n, row - 1, k - 1) + 1
+              IN o <= Len(e.flat) => Match(op, e.flat[o], Reduce(op, Gather(els[k], r.rows[row]), r.den))
 
-\* destination dimension replaces the node dimension, leading dimensions kept, in order
+\* the destination dimension takes the place (position) of the node dimension, the other dimensions keep theirs
 DimsOK(r, dest, op) ==
     LET e == r.res[dest][op]
-    IN Has(e, "v") => /\ e.dims = r.lead_dims \o << DestDim(dest) >>
-                      /\ e.shape = r.lead \o << Len(Elements(r, dest)) >>
-ClassOK(r, dest, op) == LET e == r.res[dest][op] IN Has(e, "v") => e.cls = "UxDataArray"
-GridOK(r, dest, op)  == LET e == r.res[dest][op] IN Has(e, "v") => e.same
-Accepted(r, dest, op) == Has(r.res[dest][op], "v")
-
-\* node dimension first, (n_node, lev): the call may refuse the layout; if it returns numbers they are the
-\* reductions along the node axis, with the destination dimension in the place of the node dimension
-LayoutOK(r, dest) ==
-    Has(r, "alt") =>
-      LET els == Elements(r, dest)
-          res == r.alt.res[dest]
-      IN \A op \in DOMAIN res :
-           LET e == res[op]
-           IN Has(e, "raised") \/
-              ( /\ e.dims = << DestDim(dest), "lev" >>
-                /\ e.shape = << Len(els), Len(r.alt.rows) >>
-                /\ e.cls = "UxDataArray"
-                /\ Len(e.v) = Len(r.alt.rows)
-                /\ \A row \in 1..Len(e.v) :
-                     /\ Len(e.v[row]) = Len(els)
-                     /\ \A k \in 1..Len(e.v[row]) :
-                          Match(op, e.v[row][k], Reduce(op, Gather(els[k], r.alt.rows[row]), r.den)) )
-\* signature of a known shape of failure: the node axis was kept and the gather applied to the LAST axis
-GatherOnLastAxis(r, dest) ==
-    Has(r, "alt") /\ \E op \in DOMAIN r.alt.res[dest] :
-        LET e == r.alt.res[dest][op]
-        IN ~Has(e, "raised") /\ e.shape = << r.n_node, Len(Elements(r, dest)) >>
+    IN Has(e, "flat") => /\ e.dims = InsAt(r.lead_dims, r.pos, DestDim(dest))
+                         /\ e.shape = LayoutShape(Lay(r), Len(Elements(r, dest)))
+ClassOK(r, dest, op) == LET e == r.res[dest][op] IN Has(e, "flat") => e.cls = "UxDataArray"
+GridOK(r, dest, op)  == LET e == r.res[dest][op] IN Has(e, "flat") => e.same
+Accepted(r, dest, op) == Has(r.res[dest][op], "flat")
 
 Failed(r) ==
     LET sane  == EdgeTableSane(r)
@@ -91,7 +76,6 @@ Failed(r) ==
         every == { << op, d >> : op \in Ops, d \in Dests }
     IN (IF sane THEN {} ELSE { "EdgeTableSane" })
        \cup { "Value_" \o c[1] \o "_" \o c[2] : c \in { x \in pairs : ~ValueOK(r, x[2], x[1]) } }
-       \cup { "Layout_" \o d   : d \in { x \in ds : ~LayoutOK(r, x) } }
        \cup { "Dims_" \o d     : d \in { x \in ds : \E op \in Ops : ~DimsOK(r, x, op) } }
        \cup { "Class_" \o d    : d \in { x \in ds : \E op \in Ops : ~ClassOK(r, x, op) } }
        \cup { "SameGrid_" \o d : d \in { x \in ds : \E op \in Ops : ~GridOK(r, x, op) } }
@@ -108,6 +92,5 @@ Next == /\ i < 0
 Judge == i > 0 =>
            LET r == Recs[i]
                f == Failed(r)
-           IN /\ \A c \in f : PrintT(<<"V", i, c>>)      \* one short line per failed clause
-              /\ \A d \in Dests : ("Layout_" \o d \in f /\ GatherOnLastAxis(r, d)) => PrintT(<<"S", i, d>>)
+           IN \A c \in f : PrintT(<<"V", i, c>>)      \* one short line per failed clause
 =============================================================================
